@@ -893,7 +893,10 @@ fn admin_driver(out: &str, seed: u64, n: u64) {
                     r.act(a);
                 }
                 // user activity under emissions
-                r.act(json!({"op":"update_emis_dest","acct":"A1","dst":"U7"}));
+                // (sometimes the authority has not chosen a destination yet: the permissionless payout must then be refused)
+                if rng.gen_bool(0.6) {
+                    r.act(json!({"op":"update_emis_dest","acct":"A1","dst":"U7"}));
+                }
                 for _ in 0..rng.gen_range(2..8) {
                     let c = rng.gen_range(0..8);
                     let a = match c {
@@ -901,7 +904,7 @@ fn admin_driver(out: &str, seed: u64, n: u64) {
                         1 => json!({"op":"deposit","acct":"A1","bank":*pick(&mut rng, &["B1","B2"]),"amount": rng.gen_range(1..2_000_000_000u64)}),
                         2 => json!({"op":"settle_emissions","acct":*pick(&mut rng, &["A1","A2"]),"bank":*pick(&mut rng, &["B1","B2"])}),
                         3 => json!({"op":"withdraw_emissions","acct":"A1","bank":*pick(&mut rng, &["B1","B2"])}),
-                        4 => json!({"op":"withdraw_emissions_perm","acct":"A1","bank":*pick(&mut rng, &["B1","B2"])}),
+                        4 => json!({"op":"withdraw_emissions_perm","acct":*pick(&mut rng, &["A1","A1","A2"]),"bank":*pick(&mut rng, &["B1","B2"])}),
                         5 => json!({"op":"withdraw_emissions","acct":"A1","bank":"B1","signer":"stranger"}),
                         6 => json!({"op":"withdraw_emissions_perm","acct":"A1","bank":"B1","dst":"stranger.ME"}),
                         _ => json!({"op":"withdraw","acct":"A1","bank":"B1","amount": rng.gen_range(1..1_000_000u64)}),
@@ -1313,6 +1316,38 @@ fn struct_driver(out: &str, seed: u64, n: u64) {
     let mut r = Recorder::new(&format!("{}/struct.trace", out), load_setup("struct"));
     for k in 0..n {
         r.begin(&[]);
+        if k % 3 == 0 {
+            // open / close orderings: several positions, some closed (holes in the slot array), then positions opened in banks
+            // whose keys lie below, between and above the remaining ones
+            let mut banks: Vec<String> = (1..=10).map(|i| format!("T{}", i)).collect();
+            banks.sort_by_key(|b| std::cmp::Reverse(r.ex.env.k(b)));
+            let pickn = rng.gen_range(4..=7);
+            let mut chosen: Vec<usize> = (0..10).collect();
+            for i in (1..chosen.len()).rev() {
+                chosen.swap(i, rng.gen_range(0..=i));
+            }
+            let mut open: Vec<usize> = chosen[..pickn].to_vec();
+            let rest: Vec<usize> = chosen[pickn..].to_vec();
+            open.sort();
+            for &i in open.iter() {
+                r.act(json!({"op":"deposit","acct":"L2","bank":banks[i],"amount":1000 + i as u64}));
+            }
+            // close two or three, in key order or not
+            let nclose = rng.gen_range(2..=3).min(open.len() - 1);
+            let closing: Vec<usize> = if rng.gen_bool(0.6) { open[..nclose].to_vec() } else { let mut o = open.clone(); o.reverse(); o[..nclose].to_vec() };
+            for &i in closing.iter() {
+                r.act(json!({"op":"withdraw","acct":"L2","bank":banks[i],"amount":0,"all":true}));
+            }
+            let mut rest_sorted = rest.clone();
+            rest_sorted.sort();
+            // lowest key, highest key, something in between
+            for &i in [rest_sorted[rest_sorted.len() - 1], rest_sorted[0], rest_sorted[rest_sorted.len() / 2]].iter() {
+                r.act(json!({"op":"deposit","acct":"L2","bank":banks[i],"amount":77}));
+                r.act(json!({"op":"pulse_health","acct":"L2"}));
+            }
+            r.act(json!({"op":"borrow","acct":"L2","bank":"D","amount":10}));
+            continue;
+        }
         let liq = |b: &str, amt: u64| json!({"op":"liquidate","liquidator":"Q","liquidatee":"L","asset_bank":b,"liab_bank":"D","amount":amt});
         if k % 2 == 0 {
             // integration tags: 9 collateral banks re-tagged with a random mix of Kamino / Drift / Solend tags
